@@ -63,7 +63,8 @@ func cmdExtErrRun(args []string) {
 			lookups := []struct {
 				name string
 				key  int
-			}{{"Get(present)", 7}, {"Has(present)", 19}, {"Get(absent)", 77}, {"Has(absent)", 78}, {"Remove(absent)", 79}, {"Remove(present)", 8}, {"IterateFirst", 0}}
+			}{{"Get(present)", 7}, {"Has(present)", 19}, {"Get(absent)", 77}, {"Has(absent)", 78}, {"Remove(absent)", 79}, {"Remove(present)", 8}, {"IterateFirst", 0},
+				{"Set(present)", 11}, {"Set(present@limit1)", 13}, {"Set(present@limit0)", 14}}
 			for _, lk := range lookups {
 				for _, inject := range []string{"ledger", "comparator", "hip"} {
 					normal := ""
@@ -75,7 +76,9 @@ func cmdExtErrRun(args []string) {
 						cmp := func(s atree.SlabStorage, v atree.Value, so atree.Storable) (bool, error) {
 							if inject == "comparator" {
 								calls++
-								if calls == k {
+								// updates: the component stays broken from its k-th call on (the library may probe a collision group
+								// and then look the key up again; a single transient failure may be retried away without harm)
+								if k > 0 && (calls == k || (calls > k && len(lk.name) > 3 && lk.name[:3] == "Set")) {
 									fired = true
 									return false, errCallback
 								}
@@ -85,7 +88,7 @@ func cmdExtErrRun(args []string) {
 						hip := func(v atree.Value, b []byte) ([]byte, error) {
 							if inject == "hip" {
 								calls++
-								if calls == k {
+								if k > 0 && (calls == k || (calls > k && len(lk.name) > 3 && lk.name[:3] == "Set")) {
 									fired = true
 									return nil, errCallback
 								}
@@ -108,6 +111,17 @@ func cmdExtErrRun(args []string) {
 								_, err = m.Has(cmp, hip, key)
 							case "Remove(absent)", "Remove(present)":
 								_, _, err = m.Remove(cmp, hip, key)
+							case "Set(present)", "Set(present@limit1)", "Set(present@limit0)":
+								// an UPDATE of an existing key, also when its first-level digest already sits at the collision limit
+								// (the library probes the group for the key before refusing): a failing callback is external
+								switch lk.name {
+								case "Set(present@limit1)":
+									atree.VerifSetMaxCollisionLimitPerDigest(1)
+								case "Set(present@limit0)":
+									atree.VerifSetMaxCollisionLimitPerDigest(0)
+								}
+								_, err = m.Set(cmp, hip, key, mkValue(ElemSpec{ID: 5000 + lk.key, Sz: 12}))
+								atree.VerifSetMaxCollisionLimitPerDigest(255)
 							case "IterateFirst":
 								var it atree.MapIterator
 								it, err = m.ReadOnlyIterator()
